@@ -52,6 +52,16 @@ fn decode_encode(bytes: &[u8; 127], do_async: bool) -> Option<(String, String)> 
             if used != 127 {
                 return Some(("consumed/sync".into(), format!("reader consumed {used} bytes")));
             }
+            // the decoded field is the f64 nearest to k * 1e-7 (one correctly rounded division): it is the value a caller
+            // supplies for that multiple of 1e-7, so "serialise, then parse" returns equal field values only if this holds
+            let got = [h.min_pos.longitude, h.min_pos.latitude, h.max_pos.longitude, h.max_pos.latitude, h.center_pos.longitude, h.center_pos.latitude];
+            for (j, off) in [102usize, 106, 110, 114, 119, 123].into_iter().enumerate() {
+                let k = i32::from_le_bytes(bytes[off..off + 4].try_into().unwrap());
+                let want = stored_to_deg(k);
+                if got[j].to_bits() != want.to_bits() && !(k == 0 && got[j] == 0.0) {
+                    return Some(("decoded-value/sync".into(), format!("stored coordinate {k} (field at byte {off}) decodes to {:e} (bits {:016x}); the f64 nearest to {k}e-7 is {want:e} (bits {:016x})", got[j], got[j].to_bits(), want.to_bits())));
+                }
+            }
             match header_write_sync(&h) {
                 Out::Ok(b) => {
                     if b.as_slice() != bytes.as_slice() {
@@ -159,7 +169,7 @@ fn degree_inputs(k: i64) -> Vec<f64> {
 pub fn run(tier: &str) -> i32 {
     let rep = Report::new("C09", tier, "exploration");
     let thorough = rep.thorough();
-    rep.rule("(i) decode->encode over stored coordinate values v (six fields hold v+j*0x9E3779B1): quick |v|<=2^17, stride 4099, boundaries; thorough all 2^32; (ii) degrees->stored for fl(k/1e7), fl((k+-1/2)/1e7), fl((k+1/4)/1e7) +-2ulp, both signs, dyadic ties; (iii) one-hot and boundary values in each u64 field; (iv) every code 0..255 in enum/clustered/version bytes, magic perturbations; (v) every truncation 0..126 and trailing bytes; sync and async; non-trivial = distinct header images / distinct f64 inputs");
+    rep.rule("(i) decode->encode over stored coordinate values v (six fields hold v+j*0x9E3779B1): quick |v|<=2^17, stride 4099, boundaries; thorough all 2^32; each decoded field must be bit-identical to the f64 nearest to v*1e-7 and the re-encoded bytes identical; (ii) degrees->stored for fl(k/1e7), fl((k+-1/2)/1e7), fl((k+1/4)/1e7) +-2ulp, both signs, dyadic ties; (iii) one-hot and boundary values in each u64 field; (iv) every code 0..255 in enum/clustered/version bytes, magic perturbations; (v) every truncation 0..126 and trailing bytes; sync and async; non-trivial = distinct header images / distinct f64 inputs");
     rep.assume("hand-written little-endian codec in harness/src/spec/header.rs is the trusted reference");
 
     // ---------------- (i) decode -> encode
